@@ -46,6 +46,8 @@ func fn1Int(name string) interface{} {
 		return func(x int) float64 { return float64(x) / 2 }
 	case "tobool":
 		return func(x int) bool { return x%2 != 0 }
+	case "same":
+		return func(x int) int { return x }
 	case "tostr":
 		return func(x int) *string {
 			if x == 0 {
@@ -71,6 +73,8 @@ func fn1Float(name string) interface{} {
 		return func(x float64) float64 { return -x }
 	case "tobool":
 		return func(x float64) bool { return math.IsNaN(x) }
+	case "same":
+		return func(x float64) float64 { return x }
 	case "tostr":
 		return func(x float64) *string {
 			if math.IsNaN(x) {
@@ -101,6 +105,8 @@ func fn1Bool(name string) interface{} {
 		}
 	case "tobool":
 		return func(x bool) bool { return !x }
+	case "same":
+		return func(x bool) bool { return x }
 	case "tostr":
 		return func(x bool) *string { s := strconv.FormatBool(x); return &s }
 	}
@@ -133,6 +139,8 @@ func fn1Str(name string) interface{} {
 			s := *x + *x
 			return &s
 		}
+	case "same":
+		return func(x *string) *string { return x } // hands its argument pointer back
 	}
 	return nil
 }
@@ -151,7 +159,7 @@ func Fn1(kind Kind, name string) interface{} {
 	return fn1Int(name)
 }
 
-func Fn2(kind Kind) interface{} {
+func Fn2(kind Kind, pass bool) interface{} {
 	switch kind {
 	case Int:
 		return func(x, y int) int { return x*10 + y }
@@ -160,6 +168,15 @@ func Fn2(kind Kind) interface{} {
 	case Bool:
 		return func(x, y bool) bool { return x && !y }
 	default:
+		if pass {
+			// returns one of its argument pointers unchanged (like function.ConcatS does for a nil operand)
+			return func(x, y *string) *string {
+				if x == nil {
+					return y
+				}
+				return x
+			}
+		}
 		return func(x, y *string) *string {
 			a, b := "<nil>", "<nil>"
 			if x != nil {
@@ -242,6 +259,17 @@ func applyFn1(kind Kind, name string, c Cell) (Kind, Cell) {
 	panic("applyFn1: bad function " + name)
 }
 
+// fn1ResultKindFor: "same" keeps the source kind (enum sources yield string columns).
+func fn1ResultKindFor(name string, src Kind) Kind {
+	if name == "same" {
+		if src == Enum {
+			return String
+		}
+		return src
+	}
+	return fn1ResultKind(name)
+}
+
 func fn1ResultKind(name string) Kind {
 	switch name {
 	case "toint":
@@ -251,19 +279,19 @@ func fn1ResultKind(name string) Kind {
 	case "tobool":
 		return Bool
 	}
-	return String
+	return String // tostr, same
 }
 
-func applyFn2(kind Kind, x, y Cell) Cell {
+func applyFn2(kind Kind, x, y Cell, pass bool) Cell {
 	switch kind {
 	case Int:
-		return I(Fn2(Int).(func(int, int) int)(x.I, y.I))
+		return I(Fn2(Int, false).(func(int, int) int)(x.I, y.I))
 	case Float:
-		return F(Fn2(Float).(func(float64, float64) float64)(x.F, y.F))
+		return F(Fn2(Float, false).(func(float64, float64) float64)(x.F, y.F))
 	case Bool:
-		return B(Fn2(Bool).(func(bool, bool) bool)(x.B, y.B))
+		return B(Fn2(Bool, false).(func(bool, bool) bool)(x.B, y.B))
 	}
-	r := Fn2(String).(func(*string, *string) *string)(sp(x), sp(y))
+	r := Fn2(String, pass).(func(*string, *string) *string)(sp(x), sp(y))
 	if r == nil {
 		return Null()
 	}
@@ -339,7 +367,7 @@ func buildInstr(in Instr, cur Frame, calls *int) qframe.Instruction {
 	case "fn1":
 		r.Fn = Fn1(kind, arg)
 	case "fn2":
-		r.Fn = Fn2(kind)
+		r.Fn = Fn2(kind, arg == "pass")
 	case "builtin":
 		r.Fn = arg
 	case "bad":
@@ -508,7 +536,7 @@ func ApplyOne(f Frame, in Instr, rows []int, d Defects) Frame {
 		if src.Kind == Undef {
 			return errFrame("undefined column kind")
 		}
-		return mk(fn1ResultKind(arg), func(r int) Cell { _, c := applyFn1(src.Kind, arg, src.Cells[r]); return c })
+		return mk(fn1ResultKindFor(arg, src.Kind), func(r int) Cell { _, c := applyFn1(src.Kind, arg, src.Cells[r]); return c })
 	case "fn2":
 		s1, _, ok1 := f.Col(in.Src1)
 		s2, _, ok2 := f.Col(in.Src2)
@@ -522,7 +550,7 @@ func ApplyOne(f Frame, in Instr, rows []int, d Defects) Frame {
 		if kind == Enum {
 			kind = String
 		}
-		return mk(kind, func(r int) Cell { return applyFn2(s1.Kind, s1.Cells[r], s2.Cells[r]) })
+		return mk(kind, func(r int) Cell { return applyFn2(s1.Kind, s1.Cells[r], s2.Cells[r], arg == "pass") })
 	case "builtin":
 		if in.Src1 == "" {
 			// a bare string without source column is a string constant
